@@ -26,7 +26,7 @@ META = dict(
                       "{sign_digest(k), sign_digest(entropy), sign_digest_deterministic, sign, "
                       "sign_number}; (B) digest lengths baselen-1, baselen, baselen+1, "
                       "2*baselen, 64 on all 17 curves",
-                thorough="(A) all d in [1,n-1], n <= 29"),
+                thorough="(A) n <= 19"),
     stubs=eg.STUBS + [
         "hash function: hashfunc(data).digest() is an arbitrary byte string of the stated length "
         "(the same for signer and verifier: it is a function of the data)",
@@ -210,7 +210,7 @@ def jobs(tier, seed):
     js = [Job("eg-validate", "harness.egcommon:validate_eg", tier=tier)]
     for i, tc in enumerate(E.toy_curves(tier)):
         n = tc["n"]
-        if n > (13 if tier == "quick" else 43):
+        if n > (13 if tier == "quick" else 19):
             continue
         js.append(Job("entropy/%d" % i, "harness.c01:entropy_nonce", tier=tier, idx=i))
         for d in range(1, n):
